@@ -317,7 +317,9 @@ def real_parse(griffe, parents: Parents, style: str, text: str, parent_kind: str
     Returns dict(exc, frames, sections, modified, unstable, docstring)."""
     parent = parents.get(parent_kind)
     shared = dict(SHARED_OPTIONS)
-    d = griffe.Docstring(text, lineno=1, endlineno=1 + text.count("\n"), parent=parent, parser=style, parser_options=shared)
+    # configured with another style than the one it is parsed with: parse(style, ...) must not touch the configuration
+    configured = "sphinx" if style != "sphinx" else "google"
+    d = griffe.Docstring(text, lineno=1, endlineno=1 + text.count("\n"), parent=parent, parser=configured, parser_options=shared)
     out = {"exc": None, "excobj": None, "frames": None, "sections": None, "modified": None, "unstable": d.value != text, "value": d.value}
     before_parent_ok = True
     before = docstring_snapshot(d)
@@ -340,9 +342,9 @@ def real_parse(griffe, parents: Parents, style: str, text: str, parent_kind: str
             got = repr(exc2) if exc2 is not None else [s.kind.value for s in again]
             out["modified"] = f"a second parse of the same docstring with the same options returned {got}, not what the first returned"
         elif history > 1:
-            plain, exc3 = guarded_confirmed(lambda: d.parse(), timeout)
-            fresh = griffe.Docstring(text, lineno=1, endlineno=1 + text.count("\n"), parent=parent, parser=style, parser_options=dict(SHARED_OPTIONS))
-            ref, exc4 = guarded_confirmed(lambda: fresh.parse(), timeout)
+            plain, exc3 = guarded_confirmed(lambda: d.parse(style), timeout)
+            fresh = griffe.Docstring(text, lineno=1, endlineno=1 + text.count("\n"), parent=parent, parser=configured, parser_options=dict(SHARED_OPTIONS))
+            ref, exc4 = guarded_confirmed(lambda: fresh.parse(style), timeout)
             if (exc3 is None) != (exc4 is None) or (exc3 is None and flat(plain) != flat(ref)):
                 out["modified"] = "parse() with the configured options depends on the options of an earlier parse(**options) of the same docstring"
         if docstring_snapshot(d) != before or shared != SHARED_OPTIONS:
